@@ -51,11 +51,12 @@ type termCase struct {
 	WaitMs    int // completion timeout
 	CancelMs  int
 	TickCoinc bool // the run ends within a few ms of the 1 s progress tick
+	ViaCLI    bool // through f1.New().Add().ExecuteWithArgs (completion timeout is then the CLI's 10 s)
 }
 
 func (c termCase) desc() string {
-	return fmt.Sprintf("%s ending=%s blocking=%s sleep=%dus blocked=%d wait=%dms cancel=%dms tickCoincident=%v",
-		c.Shape.Desc, c.Ending, c.Blocking, c.SleepUs, c.Blocked, c.WaitMs, c.CancelMs, c.TickCoinc)
+	return fmt.Sprintf("%s ending=%s blocking=%s sleep=%dus blocked=%d wait=%dms cancel=%dms tickCoincident=%v viaCLI=%v",
+		c.Shape.Desc, c.Ending, c.Blocking, c.SleepUs, c.Blocked, c.WaitMs, c.CancelMs, c.TickCoinc, c.ViaCLI)
 }
 
 func genCase(t *rapid.T) termCase {
@@ -114,6 +115,11 @@ func genCase(t *rapid.T) termCase {
 	}
 	if c.Ending == "cancel-mid-run" {
 		c.CancelMs = rapid.IntRange(1, 150).Draw(t, "cancelMs")
+	}
+	switch c.Ending {
+	case "max-duration", "own-duration", "limit", "setup-fail", "setup-panic":
+		// through the public entry point: the CLI's own mapping of the flags / the file's limits
+		c.ViaCLI = c.Blocking != "blocked" && rapid.IntRange(0, 3).Draw(t, "viaCLI") == 0
 	}
 	return c
 }
@@ -208,14 +214,20 @@ func execute(c termCase, dir string) (observation, error) {
 		}()
 	}
 	type result struct {
-		out *vlib.RunOutcome
-		err error
+		out    *vlib.RunOutcome
+		err    error
+		failed bool
 	}
 	done := make(chan result, 1)
 	start = time.Now()
 	go func() {
+		if c.ViaCLI {
+			verdict, err := vlib.ExecuteCLI(spec)
+			done <- result{nil, err, verdict != nil}
+			return
+		}
 		o, err := vlib.Execute(spec)
-		done <- result{o, err}
+		done <- result{o, err, err == nil && o.Result.Failed()}
 	}()
 	budget := c.Shape.ScheduledStop() + returnDeadline
 	if c.Blocking == "blocked" {
@@ -229,7 +241,7 @@ func execute(c termCase, dir string) (observation, error) {
 		obs.returned = true
 		obs.elapsed = time.Since(start)
 		obs.inFlightAtRt = inFlight.Load()
-		obs.resFailed = r.out.Result.Failed()
+		obs.resFailed = r.failed
 	case <-time.After(budget):
 		obs.elapsed = time.Since(start)
 		releaseOnce.Do(func() { close(release) })
@@ -243,7 +255,11 @@ func execute(c termCase, dir string) (observation, error) {
 		time.Sleep(150 * time.Millisecond)
 		obs.entriesAfter = entries.Load() - entriesAtReturn
 		obs.writesAfter = out.writes.Load() - writesAtReturn
-		obs.leak = goleak.Find(leakOpt)
+		// (the CLI installs a signal handler: os/signal's own goroutine stays for the life of the process)
+		obs.leak = goleak.Find(leakOpt, goleak.IgnoreTopFunction("os/signal.signal_recv"), goleak.IgnoreTopFunction("os/signal.loop"))
+		if c.ViaCLI {
+			obs.writesAfter = 0 // the harness's sink is not attached to a CLI run
+		}
 	}
 	obs.lateEntry = time.Duration(latest.Load())
 	obs.lastExit = time.Duration(lastExit.Load())
@@ -330,6 +346,9 @@ func TestProp_Terminates(t *testing.T) {
 		cls := []string{"mode-" + c.Shape.Mode, "ending-" + c.Ending, "blocking-" + c.Blocking}
 		if c.TickCoinc {
 			cls = append(cls, "ends-on-progress-tick")
+		}
+		if c.ViaCLI {
+			cls = append(cls, "through-the-cli")
 		}
 		if obs.elapsed > 3*time.Second {
 			rt.Logf("slow case (%s): %s", obs.elapsed, c.desc())
